@@ -1,7 +1,7 @@
 (* C28 -- BPE merging matches the reference merge algorithm.
    Only statements; every proof is `exact <lemma>`. *)
 From RV Require Import Prelude.
-From Bpe Require Import ModelBpe Ref_proofs Merge_proofs Encode_proofs.
+From Bpe Require Import ModelBpe Ref_proofs Merge_proofs Encode_proofs Vocab_proofs.
 Open Scope N_scope.
 
 (* (1) one pass of the index loop with in-place removal (`while i < tokens.len() - 1 { .. }`)
@@ -57,6 +57,14 @@ Theorem C28_encode_piece_eq_reference_str : forall o b,
   exists ids, encode_piece b piece e = Ok ids /\
               map (v_get (spec_vocab o)) (reference_str (o_merges o) word) = map Some ids.
 Proof. exact encode_piece_eq_reference_str. Qed.
+
+(* (7) the vocabulary build_vocab generates when none is supplied (no end-of-word suffix) has
+       pairwise distinct keys and ids for EVERY merge list, so (6) needs no vocabulary
+       hypothesis in that case *)
+Theorem C28_default_vocab_wellformed : forall merges,
+  N.of_nat (length merges) + 256 <= 4294967296 ->
+  NoDup (map fst (build_vocab merges None)) /\ vocab_inj (build_vocab merges None).
+Proof. exact default_vocab_wellformed. Qed.
 
 (* non-vacuity: "aaab" with merges (a,a),(a,b): overlapping occurrences of (a,a) compete, the
    left one wins, then (a,b) applies; default vocabulary ids 256, 257 *)
